@@ -50,7 +50,7 @@ def oracle(ctx, case, steps, ctor_err):
     node_match = nm if kw['last_all_atom'] else (lambda a, b: a.get('atomname') == b.get('atomname'))
     if not nx.is_isomorphic(fine, flat, node_match=node_match, edge_match=em):
         ctx.fail(suites.slim(case), 'level-by-level resolution differs from resolving the flattened two-level description')
-    if kw['last_all_atom']:
+    if kw['last_all_atom'] and 'mol' in case:
         ref = gen_mol.ref_from_case(case)
         if not nx.is_isomorphic(fine, ref, node_match=nm, edge_match=em_ref):
             ctx.fail(suites.slim(case), 'level-by-level resolution does not give the molecule')
@@ -88,6 +88,12 @@ def run(ctx):
     for i in range(ctx.budget(300, 6000)):
         if ctx.out_of_time():
             break
+        if i % 10 == 7:
+            # the expansion operator inside a middle-level fragment definition
+            case = gen_levels.mult_case(rng)
+            suites.run_resolve_case(ctx, 'mol-hier-mult', case, oracle=oracle)
+            ctx.feature('expansion-in-fragment')
+            continue
         case = gen_levels.hier_case(rng, share_p=rng.choice([0, 0, 0.4]), virtual_p=rng.choice([0, 0, 0.5]))
         if i % 4 == 3:
             # coarse last level: drop the atomistic block
